@@ -1,5 +1,6 @@
 import O4.Lemmas.Obfs4Tx
 import O4.Lemmas.Obfs4Rx
+import O4.Lemmas.Obfs4Tamper
 /-!
 # C05 — the obfs4 reader hands the application only a prefix of what the peer sealed
 
@@ -163,7 +164,7 @@ example : allSome [makePacket packetTypePayload [1, 2] 0, makePacket packetTypeP
 /-- honest stream, 1-byte reads then a large one, awkward chunking: everything is delivered -/
 example : (session (idealCrypto exSent) true [1, 1, 10, 10] Rx.init
       [.data ((wire (idealCrypto exSent) exSent).take 30),
-       .data ((wire (idealCrypto exSent) exSent).drop 30)]).1 = [1, 2, 3] := by decide
+       .data ((wire (idealCrypto exSent) exSent).drop 30)]).1 = [1, 2, 3] := by decide +kernel
 
 /-- tampered stream: a **strict** prefix `[1,2]` of `[1,2,3]` is delivered and the tampered frame
     is reported as `tagMismatch`; the decoder still waits at frame 1 (the conclusion of
@@ -223,6 +224,105 @@ example : parsePacket true [0, 0] = .bad (.invalidPacketLength 2) ∧
     parsePacket true [0, 0, 5, 1] = .bad (.invalidPayloadLength 5) ∧
     parsePacket true [0, 0, 1, 9, 0] = .payload [9] ∧
     parsePacket false (1 :: 0 :: 24 :: List.replicate 24 4) = .seed (List.replicate 24 4) := by
+  decide
+
+/-! ## the first damaged frame, for whole streams under any segmentation
+
+Hypothesis `IdealFor c sent` (`Lemmas/Obfs4Tamper.lean`): `BoxAuth c (sentFn sent)` plus the
+round trip *for the packets the peer actually sealed* (`CryptoOK`, the round trip for all
+packets, contradicts `BoxAuth`).  The stream is the honest one for the first `j` frames
+(`j = 0` and `j = sent.length` included) followed by `tail`, whose first frame is completely
+received and damaged (`BadFirstFrame`): length field out of range, or not the honest box of
+nonce `j+1` — bit flips, deleted / duplicated / reordered / replayed frames, forgeries. -/
+
+/-- **every segmentation**: the buffer loop reports `tagMismatch` with exactly the payload of
+    the `j` intact frames decoded and the frame counter at `j`. -/
+theorem tampered_stream_feed (c : Crypto) (sent : List Bytes) (hi : IdealFor c sent) (srv : Bool)
+    (hp : ∀ p ∈ sent, p.length ≤ Consts.Framing.maximumFramePayloadLength)
+    (hn : sent.length < ctrLimit - 1) (j : Nat) (hj : j ≤ sent.length)
+    (hwf : ∀ p ∈ sent.take j, ∀ e, parsePacket srv p ≠ .bad e)
+    (tail : Bytes) (hbad : BadFirstFrame c sent j tail)
+    (cs : List Bytes) (hcs : cs.flatten = encodeAll c 0 (sent.take j) ++ tail) :
+    ∃ rx, feedAll c srv Rx.init cs = (rx, some (.frame .tagMismatch)) ∧ rx.dec.k = j ∧
+      rx.decoded = (sent.take j).flatMap (payloadOf srv) := by
+  obtain ⟨rx, h1, h2, h3, _⟩ := tampered_feed c sent hi srv hp hn j hj hwf tail hbad cs hcs
+  exact ⟨rx, h1, by rw [h2], h3⟩
+
+/-- **every segmentation and every sequence of `Read` sizes** (caller stops at the first error):
+    what is delivered is a prefix of the payload of the `j` intact frames; the session never
+    ends blocked (the damaged frame is completely received, so the error must surface before
+    `Read` could wait for the network again); once the error is reported it is `tagMismatch`
+    and delivered ++ still-held bytes are exactly the payload of the `j` intact frames. -/
+theorem tampered_stream_session (c : Crypto) (sent : List Bytes) (hi : IdealFor c sent) (srv : Bool)
+    (hp : ∀ p ∈ sent, p.length ≤ Consts.Framing.maximumFramePayloadLength)
+    (hn : sent.length < ctrLimit - 1) (j : Nat) (hj : j ≤ sent.length)
+    (hwf : ∀ p ∈ sent.take j, ∀ e, parsePacket srv p ≠ .bad e)
+    (tail : Bytes) (hbad : BadFirstFrame c sent j tail)
+    (cs : List Bytes) (hcs : cs.flatten = encodeAll c 0 (sent.take j) ++ tail) (ns : List Nat) :
+    let r := sessionUntilErr c srv ns Rx.init (cs.map NetEv.data)
+    r.1 <+: (sent.take j).flatMap (payloadOf srv) ∧ r.2.2.2 = false ∧
+      ((r.2.2.2 = true ∨ r.2.1.isSome) → r.2.1 = some (.frame .tagMismatch) ∧
+        r.1 ++ r.2.2.1.decoded = (sent.take j).flatMap (payloadOf srv)) := by
+  intro r
+  obtain ⟨h1, h2, h3, h4⟩ := tampered_session c sent hi srv hp hn j hj hwf tail hbad cs hcs ns
+    r.1 r.2.1 r.2.2.1 r.2.2.2 rfl
+  refine ⟨(List.prefix_append _ _).trans h1, h2, fun hc => ?_⟩
+  have hs : r.2.1.isSome := by
+    rcases hc with hc | hc
+    · rw [h2] at hc; cases hc
+    · exact hc
+  refine ⟨?_, (h4 hs).1⟩
+  rcases h3 with h3 | h3
+  · rw [h3] at hs; cases hs
+  · exact h3
+
+/-- the hypothesis `IdealFor` is satisfiable, by the executable crypto instance of the examples -/
+example : IdealFor (idealCrypto exSent) exSent := idealCrypto_idealFor exSent
+
+/-- `exTampered` = frame 0 intact (23 bytes), then frame 1 with a flipped byte in its box -/
+example : BadFirstFrame (idealCrypto exSent) exSent 1 (exTampered.drop 23) := by decide
+
+/-- … fed byte by byte: `tagMismatch`, `[1,2]` decoded, frame counter 1 -/
+example : ∃ rx, feedAll (idealCrypto exSent) true Rx.init (exTampered.map fun b => [b])
+      = (rx, some (.frame .tagMismatch)) ∧ rx.dec.k = 1 ∧
+    rx.decoded = (exSent.take 1).flatMap (payloadOf true) :=
+  tampered_stream_feed (idealCrypto exSent) exSent (idealCrypto_idealFor exSent) true (by decide)
+    (by decide) 1 (by decide) (okPkt_wf true _ (by decide)) (exTampered.drop 23) (by decide)
+    _ (by decide)
+
+/-- … read with 1-byte `Read`s from two segments (30 + 16 bytes) -/
+example :
+    let r := sessionUntilErr (idealCrypto exSent) true [1, 1, 1] Rx.init
+      ([exTampered.take 30, exTampered.drop 30].map NetEv.data)
+    r.1 <+: (exSent.take 1).flatMap (payloadOf true) ∧ r.2.2.2 = false ∧
+      ((r.2.2.2 = true ∨ r.2.1.isSome) → r.2.1 = some (.frame .tagMismatch) ∧
+        r.1 ++ r.2.2.1.decoded = (exSent.take 1).flatMap (payloadOf true)) :=
+  tampered_stream_session (idealCrypto exSent) exSent (idealCrypto_idealFor exSent) true (by decide)
+    (by decide) 1 (by decide) (okPkt_wf true _ (by decide)) (exTampered.drop 23) (by decide)
+    _ (by decide) [1, 1, 1]
+
+example : (sessionUntilErr (idealCrypto exSent) true [1, 1, 1] Rx.init
+      ([exTampered.take 30, exTampered.drop 30].map NetEv.data)).1 = [1, 2] ∧
+    (sessionUntilErr (idealCrypto exSent) true [1, 1, 1] Rx.init
+      ([exTampered.take 30, exTampered.drop 30].map NetEv.data)).2.1
+      = some (.frame .tagMismatch) := by decide
+
+/-- other instances of `BadFirstFrame`: the box of frame 0 replayed in place of the box of
+    frame 1 (length field of frame 1 kept); the whole stream replayed in place of frame 1, and
+    after its end (`j = sent.length`) — the length field, deobfuscated with the wrong mask, is
+    out of range and the random replacement lengths 53 resp. 90 are covered by the 92 bytes; an
+    out-of-range length field at `j = 0`.  (A damaged frame of which fewer bytes have arrived
+    than the decoder waits for is *not* an instance: the decoder then still waits.) -/
+example :
+    BadFirstFrame (idealCrypto exSent) exSent 1
+      (((wire (idealCrypto exSent) exSent).take 25 ++
+        ((wire (idealCrypto exSent) exSent).drop 2).take 21).drop 23) ∧
+    BadFirstFrame (idealCrypto exSent) exSent 1
+      (wire (idealCrypto exSent) exSent ++ wire (idealCrypto exSent) exSent) ∧
+    BadFirstFrame (idealCrypto exSent) exSent 2
+      (wire (idealCrypto exSent) exSent ++ wire (idealCrypto exSent) exSent) ∧
+    BadFirstFrame (idealCrypto exSent) exSent 0 ([0, 0] ++ List.replicate 16 7) ∧
+    ¬ BadFirstFrame (idealCrypto exSent) exSent 1 ((wire (idealCrypto exSent) exSent).take 23) := by
   decide
 
 end C05
